@@ -7,10 +7,19 @@ RULE = ("random cases: 1-3 instruments on two exchanges (3-5 exchange-assets), 0
         "0/10/30 % of ops are balance snapshots with advancing, equal and stale timestamps; 6 % of direct cases end with an op on which the "
         "code panics (zero entry price, zero quantity, unknown instrument / asset index). Thorough additionally enumerates every sequence of "
         "length <= 4 over {win, loss, break-even} x {instrument 0, 1} (1 555 cases) and over five position sizes on one instrument (781 cases). "
+        "After the random cases a separately seeded input-domain family (`d..`, N/8 cases, eight classes cycled; the random cases are unchanged by it): "
+        "(0) engine round trips / flips with SIGNED fees - maker rebates on either fill, a closing fee that makes the position exactly break-even, one cent beyond, 12 % of the fills with a negative Trade.quantity (its magnitude counts); "
+        "(1) long direct histories of 100-160 (thorough -300) closed positions, nine in ten on one instrument, 10 % immediate duplicates of the previous record; "
+        "(2) long engine histories of 60-100 (thorough -160) round trips / flips; (3) exact extreme magnitudes, one regime per instrument (entry 1e-8 x size 1e12, entry 1e12 x size 1e-8, "
+        "cost 1e-16 with PnL in units of 1e-17, cost 1e18 with PnL in units of 1e16 - PnL sums and returns stay exact Decimals); (4) the first two regimes as engine fills with signed fees; "
+        "(5) odd balances on both paths - negative totals, free > total, free < 0, zero, negative and far exchange times with equal / stale ones right after; "
+        "(6) 0 instruments (empty summary) or 4-6 instruments; (7) negative quantity_abs_max / negative entry / both, the same record on two instruments. "
+        "The corpus (corpus/C16/domain.ops, run first) holds one hand-made case per class plus negative-zero PnL tokens. "
         "A case is distinct by the SHA-1 of its op lines and non-trivial when the implementation's observation block changes at least once")
 ASSUMPTIONS = [
     "every closed position has price_entry_average * quantity_abs_max != 0 (the code panics otherwise: Decimal division by zero; harness and model both report `panic`)",
     "events name an instrument / asset the engine was built with (the code panics otherwise)",
+    "extreme magnitudes are generated per instrument within ONE exact regime (digits of the running PnL and of the running sum of returns fit a 96-bit Decimal mantissa); mixing 1e-17 and 1e16 PnL on one instrument makes rust_decimal round the sums - the declared number-range boundary (rounding not modelled), not generated",
     "exact rational arithmetic: rust_decimal rounding of the return, of the win-rate and profit-factor quotients is not modelled (compared to 1e-18); a Decimal quotient is never the negative zero",
     "InstrumentIndex / AssetIndex = position in the engine's FnvIndexMaps = position in the summary's maps (C11); the harness looks tear sheets up by instrument name / ExchangeAsset key",
     "Sharpe / Sortino / Calmar / drawdown fields of the tear sheets are outside C16 (C17, C18) and not compared",
